@@ -176,7 +176,7 @@ def part_k(chk, tier, variant=None):
     vlit = coq_variant(variant)
     ntrees = 60 if tier == "thorough" else 14
     nweird = 400 if tier == "thorough" else 80
-    feats_cycle = [("symlinks", "prefixes"), ("symlinks", "utf8", "zipnames"), ("symlinks", "raw"),
+    feats_cycle = [("symlinks", "prefixes", "dotdotnames"), ("symlinks", "utf8", "zipnames"), ("symlinks", "raw", "dotdotnames"),
                    ("utf8", "utf8noflag", "symlinks", "prefixes"), ("mbox", "exec", "maildir", "zipnames"),
                    ("links", "gophermap", "prefixes"), ()]
     jobs = []
@@ -386,8 +386,8 @@ def part_oracle(chk, tier):
     rng = chk.rng
     found = False
     ntrees = 16 if tier == "thorough" else 4
-    feats = [("symlinks", "mbox", "exec", "maildir", "links", "zipnames"),
-             ("utf8", "raw", "symlinks", "gophermap", "mbox", "prefixes"),
+    feats = [("symlinks", "mbox", "exec", "maildir", "links", "zipnames", "dotdotnames"),
+             ("utf8", "raw", "symlinks", "gophermap", "mbox", "prefixes", "dotdotnames"),
              ("pyg", "exec", "utf8noflag", "utf8", "symlinks", "zipnames", "prefixes"),
              ("gophermap", "links", "symlinks", "prefixes", "zipnames")]
     protos = gen.PROTOCOLS
@@ -424,11 +424,34 @@ def part_oracle(chk, tier):
                     tacts.append({"do": "req", "data": gen.lat(d1), "tls": tls})
                     zacts.append({"do": "req", "data": gen.lat(d2), "tls": tls})
                     plan.append((p, proto, gp, len(zacts) - 1, gen.lat(d1), gen.lat(d2), tls))
+            plan2, tree2, members2 = [], None, None
+            if hname == "zip-first":
+                # history in ONE server process: the site is updated (archive rewritten in place, tree
+                # re-extracted) between two rounds of browsing; the archive has to follow the tree
+                tree2 = G.mutate_tree(tree, rng)
+                members2 = G.members_of(tree2, rng, "tree")
+                rw = {"do": "rewrite", "tree": G.extracted_of(tree2), "members": members2}
+                zacts.append(rw)
+                tacts.append(rw)
+                sels2 = [p for p in G.tree_selectors(tree2, rng, extra=2) if "//" not in p and not p.startswith("/")]
+                sels2 += [p for p in sels[:12] if p not in sels2]
+                for p in sels2:
+                    tsel = TSEL + ("/" + p if p else "")
+                    zsel = ZSEL + ("/" + p if p else "")
+                    for proto in rng.sample(protos, 2):
+                        if proto in ("gopher", "sgopher", "gopherplus", "sgopherplus") and (p != p.strip() or "\t" in p):
+                            continue
+                        gp = rng.choice(["+", "!", "$"])
+                        d1, tls = gen.request_bytes(proto, tsel, gplus=gp)
+                        d2, _ = gen.request_bytes(proto, zsel, gplus=gp)
+                        tacts.append({"do": "req", "data": gen.lat(d1), "tls": tls})
+                        zacts.append({"do": "req", "data": gen.lat(d2), "tls": tls})
+                        plan2.append((p, proto, gp, len(zacts) - 1, gen.lat(d1), gen.lat(d2), tls))
             common_kw = dict(extra_root=[{"path": "outside.txt", "data": "OUTSIDE\n"}],
                              cwd_files=[{"path": "mail.mbox", "data": G.MBOX.replace("one", "CWD-OUTSIDE")}])
             jobs.append(job_for(tree, members, zacts, handlers=handlers, **common_kw))
             jobs.append(job_for(tree, members, tacts, handlers=without_real_only(handlers), **common_kw))
-            meta.append((tree, members, allsels, plan, hname, handlers))
+            meta.append((tree, members, allsels, plan, hname, handlers, plan2, tree2, members2))
     # corpus: the D19 exhibit — a mailbox and a maildir at the top of an archive, a mailbox of the same
     # name in the server's working directory (outside the document root)
     ex_tree = [{"path": "a.txt", "kind": "file", "data": "alpha\n"},
@@ -464,8 +487,8 @@ def part_oracle(chk, tier):
                                "server's working directory (mailbox.Maildir(relative member path), create=True)",
                        "selectors": ex_reqs, "created": ex["cwd_created"], "members": G.members_of(ex_tree),
                        "config": config_for(ZIP_FIRST)}, tag="D19-writes-in-server-cwd")
-    nreq = ndiff = nreal = 0
-    for k, (tree, members, allsels, plan, hname, handlers) in enumerate(meta):
+    nreq = ndiff = nreal = nhist = 0
+    for k, (tree, members, allsels, plan, hname, handlers, plan2, tree2, members2) in enumerate(meta):
         rz_job, rt_job = res[2 * k], res[2 * k + 1]
         for r in (rz_job, rt_job):
             if not r["ok"]:
@@ -495,13 +518,15 @@ def part_oracle(chk, tier):
                                "selector": ZSEL + "/" + p, "handler_chain": zc, "handler_list": hname,
                                "members": members, "config": config_for(handlers),
                                "created_in_server_cwd": zout["cwd_created"]}, tag="D19-real-only-handler-in-zip:" + bad[0])
-        for p, proto, gp, ai, d1, d2, tls in plan:
+        steps = [(1, q) for q in plan] + [(2, q) for q in plan2]
+        for step, (p, proto, gp, ai, d1, d2, tls) in steps:
             rt, rz = tacts[ai], zacts[ai]
             nreq += 2
+            nhist += step == 2
             a = mask(rt["out"].encode("latin-1"), False)
             b = mask(rz["out"].encode("latin-1"), True)
             nf = gen.notfound_class(proto, rt["out"].encode("latin-1"))
-            chk.count(("req", hname, proto, gp, p, json.dumps(members[:3])), nontrivial=not nf)
+            chk.count(("req", step, hname, proto, gp, p, json.dumps(members[:3])), nontrivial=not nf)
             if p in outside_archive:
                 continue
             if ("|" in p or "?" in p) and nf:
@@ -521,14 +546,19 @@ def part_oracle(chk, tier):
                                "response_tree": a.decode("latin-1")[:1500], "response_zip": b.decode("latin-1")[:1500],
                                "exception_zip": rz.get("exc"), "log_zip": rz.get("log"),
                                "tree": tree, "members": members, "pruned_links": zout["pruned"],
-                               "config": config_for(handlers)},
-                              tag=classify_request_diff(tree, p, d19_paths))
+                               "config": config_for(handlers),
+                               **({"history": "step 2: after the archive was rewritten in place and the tree re-extracted, "
+                                              "same server process",
+                                   "tree_after_update": tree2, "members_after_update": members2} if step == 2 else {})},
+                              tag=("zip-stale-after-rewrite:" if step == 2 else "") +
+                                  classify_request_diff(tree2 if step == 2 else tree, p, d19_paths))
         if zout["cwd_created"]:
             found = True
             chk.violation({"what": "requests into an archive created files in the server's working directory",
                            "created": zout["cwd_created"], "members": members, "handler_list": hname},
                           tag="D19-writes-in-server-cwd")
     chk.coverage["oracle"] = {"trees": ntrees, "handler_lists": 2, "requests": nreq, "response_differences": ndiff,
+                              "history_requests_after_in_place_rewrite": nhist,
                               "real_only_handler_inside_archive": nreal, "protocols": protos,
                               "masked": ["'XT.zip' -> 'XT' in the archive's answers",
                                          "Last-Modified / Mod-Date lines (value, and presence: archive directories have time 0)",
@@ -644,6 +674,11 @@ def replay(path):
     elif "request_zip_latin1" in r:                        # whole request
         acts_z = [{"do": "req", "data": r["request_zip_latin1"], "tls": r["tls"]}]
         acts_t = [{"do": "req", "data": r["request_tree_latin1"], "tls": r["tls"]}]
+        if "history" in r:                                 # browse, update the site in place, browse again
+            rw = {"do": "rewrite", "tree": G.extracted_of(r["tree_after_update"]), "members": r["members_after_update"]}
+            root_z, _ = gen.request_bytes("gopher", ZSEL)
+            acts_z = [{"do": "req", "data": gen.lat(root_z), "tls": False}] + acts_z + [rw] + acts_z
+            acts_t = [{"do": "req", "data": r["request_tree_latin1"], "tls": r["tls"]}] + acts_t + [rw] + acts_t
         jz = job_for(tree, members, acts_z, handlers=handlers, extra_root=[{"path": "outside.txt", "data": "OUTSIDE\n"}])
         jt = job_for(tree, members, acts_t, handlers=without_real_only(handlers),
                      extra_root=[{"path": "outside.txt", "data": "OUTSIDE\n"}])
@@ -651,11 +686,11 @@ def replay(path):
         for x in (rz, rt):
             if not x["ok"]:
                 raise RuntimeError(x["err"])
-        a = mask(rt["res"]["actions"][0]["out"].encode("latin-1"), False)
-        b = mask(rz["res"]["actions"][0]["out"].encode("latin-1"), True)
+        a = mask(rt["res"]["actions"][-1]["out"].encode("latin-1"), False)
+        b = mask(rz["res"]["actions"][-1]["out"].encode("latin-1"), True)
         p = r.get("member_path", "")
-        if ("|" in p or "?" in p) and gen.notfound_class(r["protocol"], rt["res"]["actions"][0]["out"].encode("latin-1")):
-            same = refusal_class(r["protocol"], rz["res"]["actions"][0]["out"].encode("latin-1"))
+        if ("|" in p or "?" in p) and gen.notfound_class(r["protocol"], rt["res"]["actions"][-1]["out"].encode("latin-1")):
+            same = refusal_class(r["protocol"], rz["res"]["actions"][-1]["out"].encode("latin-1"))
         else:
             same = a == b
         print("tree   :", a[:300])
